@@ -13,6 +13,7 @@ def run(rep, repo, tier):
     run_argvc(rep, repo)
     run_shells(rep, repo)
     run_path(rep, repo)
+    run_creader(rep, repo)
 
 
 def run_memmem(rep, repo):
@@ -302,6 +303,93 @@ def out_store_hook(run, idx, name, signed=False):
     return hook
 
 
+def nonnull_result_hook(callee_name):
+    """the caller dereferences the result of callee_name without a test: it must not be NULL"""
+    def hook(interp, st, i, callee, args):
+        if callee != callee_name:
+            return None
+        target = interp.mod.functions[callee]
+        interp.stack.append((callee, i.where()))
+        try:
+            rets = interp.run_function(target, st, args)
+        finally:
+            interp.stack.pop()
+        out = []
+        for s, rv in rets:
+            bad = isinstance(rv, PtrVal) and rv.is_null
+            interp.oblige('null-result', i, not bad, None if not bad else
+                          '%s returns NULL here (empty string) and the caller dereferences the result in its loop '
+                          'condition' % (interp.mod.functions[callee].srcname or callee), 'result of path_iterate is used')
+            if not bad:
+                out.append((s, rv))
+        return out
+    return hook
+
+
+def summary_compare_node(interp, st, i, args):
+    """contract of path_compare_node (R-PATH): both arguments point into terminated strings; result in -1..1"""
+    for a in args[:2]:
+        cstr_read(interp, st, a, i, 'path_compare_node')
+        if st.bottom:
+            return []
+    r = st.fresh_int(32, True, 'cmp')
+    st.cons.add_le(-1, r.s)
+    st.cons.add_le(r.s, 1)
+    return [(st, r)]
+
+
+def summary_iterate(interp, st, i, args):
+    """contract of path_iterate (R-PATH): NULL for NULL or the empty string, otherwise a position of the same
+    string not before the argument"""
+    p = args[0]
+    if not isinstance(p, PtrVal):
+        return [(st, interp.unknown_ptr(st, 'iter'))]
+
+    def null_result(s):
+        interp.oblige('null-result', i, False,
+                      'path_iterate returns NULL here (empty string) and the caller dereferences the result in its '
+                      'loop condition', 'result of path_iterate is used')
+    if p.is_null:
+        null_result(st)
+        return []
+    cstr_read(interp, st, p, i, 'path_iterate')
+    if st.bottom:
+        return []
+    o = st.objs.get(p.obj)
+    n = o.info.get('cstr_len') if o is not None else None
+    if n is None:
+        return [(st, interp.unknown_ptr(st, 'iter'))]
+    out = []
+    if not st.cons.entails_lt(p.off, n):
+        s0 = st.fork()
+        s0.cons.add_eq(p.off, n)
+        if not interp.infeasible(s0, p.off, n):
+            null_result(s0)
+            if st.cons.entails_eq(p.off, n):
+                return []
+    interp.oblige('null-result', i, True, None, 'result of path_iterate is used')
+    st.cons.add_lt(p.off, n)
+    if interp.infeasible(st, p.off, n):
+        return []
+    k = st.fresh_int(64, False, 'adv')
+    st.cons.add_le(p.off + k.u, n)
+    return [(st, PtrVal(p.obj, p.off + k.u, p.lo, p.hi, True))]
+
+
+def nice(mod, obs):
+    """report static C++ functions under their source names"""
+    def nm(n):
+        f = mod.fn(n)
+        return (f.qualname if f is not None and f.srcname else n)
+    for o in obs:
+        stack = o.get('call_stack') or []
+        if stack:
+            o['root'] = nm(stack[0].split('@')[0])
+            o['leaf'] = nm(o['function'])
+        o['function'] = nm(o['function'])
+    return obs
+
+
 def run_path(rep, repo):
     mod = witness('w_c19_path.cpp', repo)
     rep.units.append('witness/w_c19_path.cpp -> igris/util/pathops.h, igris/creader.h')
@@ -327,17 +415,16 @@ def run_path(rep, repo):
         dict(name='element-inside-path', when=['ret_null == 0'],
              then=['ret_in_arg0 == 1', 'ret_off >= 0', 'ret_off + 1 <= len_arg0']),
         dict(name='element-length-inside-path', when=['ret_null == 0'],
-             then=['ghost_plen >= 1', 'ret_off + ghost_plen <= len_arg0'])]))
+             then=['ghost_plen >= 0', 'ret_off + ghost_plen <= len_arg0'])]))
     it.store_hook = None
     run.run(F('path_next'), FnSpec(setup=chain(cstr_args(0), null_args(1)), post=[
         dict(name='without-length-out-parameter', when=['ret_null == 0'],
              then=['ret_in_arg0 == 1', 'ret_off + 1 <= len_arg0'])]))
     run.run(F('path_next'), FnSpec(setup=chain(null_args(0), fixed_args((1, 4))), post=[
         dict(name='null-path-has-no-element', then=['ret_null == 1'])]))
-    run.run(F('path_iterate'), FnSpec(setup=cstr_args(0), post=[
-        dict(name='empty-path-ends-iteration', when=['len_arg0 == 0'], then=['ret_null == 1']),
-        dict(name='result-inside-path', when=['len_arg0 >= 1'], then=inside),
-        dict(name='iteration-makes-progress', when=['len_arg0 >= 1'], then=['ret_off >= 1'])]))
+    run.run(F('path_iterate'), FnSpec(setup=cstr_args(0, inside=(0,)), post=[
+        dict(name='empty-path-ends-iteration', when=['pos_arg0 == len_arg0'], then=['ret_null == 1']),
+        dict(name='result-inside-path', when=['pos_arg0 < len_arg0'], then=inside + ['ret_off >= pos_arg0'])]))
     run.run(F('path_iterate'), FnSpec(setup=null_args(0), post=[
         dict(name='null-path-ends-iteration', then=['ret_null == 1'])]))
     run.run(F('path_last_node'), FnSpec(setup=cstr_args(0), post=[
@@ -347,8 +434,80 @@ def run_path(rep, repo):
         dict(name='two-empty-nodes-are-equal', when=['pos_arg0 == len_arg0', 'pos_arg1 == len_arg1'], then=['ret == 0']),
         dict(name='empty-node-sorts-first', when=['pos_arg0 == len_arg0'], then=['ret <= 0']),
         dict(name='empty-node-sorts-first-b', when=['pos_arg1 == len_arg1'], then=['ret >= 0'])]))
+    rep.add_absint('R-PATH', nice(mod, summarize(it, run)))
+    # path_remove_prefix is analysed against the contracts of path_compare_node / path_iterate proved above
+    # (modular step: inlining the two nested scanners into its loop costs minutes)
+    ext = dict(LIBC_EXT)
+    ext[F('path_compare_node')] = summary_compare_node
+    ext[F('path_iterate')] = summary_iterate
+    it = Interp(mod, externals=ext, opaque=[F('path_compare_node'), F('path_iterate')])
+    run = Run19(it, [])
     run.run(F('path_remove_prefix'), FnSpec(setup=cstr_args(0, 1), post=[
         dict(name='result-inside-path', then=inside),
-        dict(name='empty-prefix-removes-nothing-from-relative-path', when=['len_arg1 == 0', 'len_arg0 == 0'],
-             then=['ret_off == 0'])]))
-    rep.add_absint('R-PATH', summarize(it, run))
+        dict(name='nothing-to-remove-from-empty-path', when=['len_arg0 == 0'], then=['ret_off == 0']),
+        dict(name='empty-prefix-removes-nothing', when=['len_arg1 == 0'], then=['ret_off == 0'])]))
+    it.call_hook = None
+    rep.add_absint('R-PATH', nice(mod, summarize(it, run)))
+
+
+CREADER = StructSpec('struct.creader', inv=[])
+
+
+def creader_setup(run, st, env, pnames, args, sps):
+    """reader over an exactly-sized, non-terminated buffer: strt = buf, fini = buf + n, cursor = buf + c,
+    0 <= c <= n"""
+    mod = run.mod
+    sp = [x for x in sps if x[2] is CREADER]
+    if len(sp) != 1:
+        raise AnalysisBroken('struct creader parameter not found')
+    (name, so, sspec, fs, sname) = sp[0]
+    n = st.fresh_int(64, False, 'n')
+    c = st.fresh_int(64, False, 'c')
+    st.cons.add_le(n.u, 1 << 40)
+    st.cons.add_le(c.u, n.u)
+    buf = st.new_obj('param', n.u, 'buf', {'desc': 'reader buffer [strt, fini)'})
+    run.bufobj = buf.id
+    offs = {}
+    for m in mod.flat_fields(sname):
+        offs[m['name']] = (m['off'], m['ty']['size'])
+    for f in ('strt', 'fini', 'cursor'):
+        if f not in offs:
+            raise AnalysisBroken('struct creader has no field %s' % f)
+    st.mem[(so.id,) + offs['strt']] = PtrVal(buf.id, Lin(0))
+    st.mem[(so.id,) + offs['fini']] = PtrVal(buf.id, n.u)
+    st.mem[(so.id,) + offs['cursor']] = PtrVal(buf.id, c.u)
+    env.bind('n', n.u)
+    env.bind('c', c.u)
+
+
+def run_creader(rep, repo):
+    mod = witness('w_c19_path.cpp', repo)
+    it = Interp(mod, externals=LIBC_EXT)
+    run = Run19(it, [CREADER])
+    F = lambda n: fn_named(mod, n)
+    unchanged = ['cursor_post_in_buf == 1', 'cursor_post_off == c', 'strt_post_off == 0', 'fini_post_off == n']
+    run.run(F('creader_end'), FnSpec(setup=creader_setup, post=[
+        dict(name='at-end', when=['c == n'], then=['ret == 1'] + unchanged),
+        dict(name='not-at-end', when=['c < n'], then=['ret == 0'] + unchanged)]))
+    run.run(F('creader_curpos'), FnSpec(setup=creader_setup, post=[dict(name='position', then=['ret == c'] + unchanged)]))
+    it.store_hook = out_store_hook(run, 1, 'token')
+    run.run(F('creader_readline'), FnSpec(setup=chain(creader_setup, fixed_args((1, 8))), post=[
+        dict(name='end-of-input', when=['c == n'], then=['ret == -1'] + unchanged),
+        dict(name='line-lies-inside-buffer', when=['c < n'],
+             then=['ret >= 0', 'ghost_token_in_buf == 1', 'ghost_token_off == c', 'c + ret <= n']),
+        dict(name='cursor-stays-inside-buffer', then=['cursor_post_in_buf == 1', 'cursor_post_off >= c',
+                                                      'cursor_post_off <= n', 'strt_post_off == 0',
+                                                      'fini_post_off == n']),
+        dict(name='consumed-line-ends-before-cursor', when=['c < n', 'cursor_post_off >= c + 1'],
+             then=['c + ret <= cursor_post_off'])]))
+    it.store_hook = None
+    run.run(F('creader_skip'), FnSpec(setup=chain(creader_setup, cstr_args(1)), post=[
+        dict(name='cursor-stays-inside-buffer', then=['cursor_post_in_buf == 1', 'cursor_post_off >= c',
+                                                      'cursor_post_off <= n', 'strt_post_off == 0',
+                                                      'fini_post_off == n']),
+        dict(name='counts-skipped-characters', then=['ret >= 0', 'cursor_post_off == c + ret']),
+        dict(name='nothing-to-skip-at-end', when=['c == n'], then=['ret == 0'])]))
+    run.run(F('creader_skipws'), FnSpec(setup=chain(creader_setup, const_strings), post=[
+        dict(name='cursor-stays-inside-buffer', then=['cursor_post_in_buf == 1', 'cursor_post_off >= c',
+                                                      'cursor_post_off <= n'])]))
+    rep.add_absint('R-CREADER', nice(mod, summarize(it, run)))
